@@ -148,6 +148,8 @@ PROPS["C09"] = {
              "(ReadSpec) to a Spec whose JSON image equals the original's, the JSON and YAML files load equal, and a cache over the "
              "directory lists the same devices with equal definitions. The dictionary unit places every dictionary string (5 embeddings) "
              "in all string fields at once. A Spec refused by WriteSpec is not a C09 case (counted under label rejected-for-writing). "
+             "concurrent unit (race-detector build): 2..6 goroutines each write their own generated Spec 3..20 times into their own "
+             "directory through their own cache at the same time; every writer's round trip must hold. "
              "Non-trivial iff some string is outside [A-Za-z0-9_./=-]* or an integer extreme is present; distinct = distinct Specs."),
     "assumptions": ["strings are valid UTF-8 (the statement's domain)", "canonical image = encoding/json of specs.Spec (nil and empty lists equal)"],
     "manifest": {
@@ -162,6 +164,7 @@ PROPS["C09"] = {
         {"name": "regress", "mode": "plain", "run": "TestC09Regress"},
         {"name": "dictionary", "mode": "plain", "run": "TestC09Dictionary", "shards": 4},
         {"name": "rapid", "mode": "rapid", "run": "TestC09Rapid", "checks": {"quick": 24000, "thorough": 480000}},
+        {"name": "concurrent", "mode": "rapid", "run": "TestC09Concurrent", "race": True, "shards": 8, "checks": {"quick": 160, "thorough": 8000}},
     ],
 }
 
